@@ -7,8 +7,8 @@
    It is meant to be audited in minutes; read it top to bottom:
      1. values / expressions / statements      (what can be written)
      2. outcomes                                (value, library exception, Unsupported)
-     3. eval / exec                             (one clause per construct, evaluation order as in CPython)
-     4. call                                    (primitives of the IO device / RunStatistics, translated functions)
+     3. operators, eval / exec                  (one clause per construct, evaluation order as in CPython)
+     4. prim / call_at                          (primitives of the IO device / RunStatistics, translated functions)
 
    Deliberate restrictions (every one of them is fail-closed: the interpreter answers [Unsupported], which is
    never equal to an outcome of the hand model, so a theorem of EngPy_tie.v cannot hold by accident):
